@@ -22,6 +22,13 @@ import sys
 import time
 
 
+def record(pid, ch, seq, size):
+    """the seq-th record a worker writes on channel ch: self-describing, exactly max(size, header+1) bytes"""
+    head = '[%d|%s|%d|%d]' % (pid, ch, seq, size)
+    body = (head + 'abcdefghij'[seq % 10] * max(0, size - len(head) - 1))[:max(size - 1, len(head))] + '\n'
+    return body.encode()
+
+
 def main():
     spec = json.loads(sys.argv[1]) if len(sys.argv) > 1 and sys.argv[1].startswith('{') else {}
     log = spec.get('log') or '/tmp'
@@ -98,9 +105,7 @@ def main():
             ch, fd, script, seq, nxt = wri
             if script and now >= nxt:
                 size, pause = script.pop(0)
-                head = '[%d|%s|%d|%d]' % (pid, ch, seq, size)
-                body = (head + ('%s' % 'abcdefghij'[seq % 10]) * max(0, size - len(head) - 1))[:max(size - 1, len(head))] + '\n'
-                data = body.encode()
+                data = record(pid, ch, seq, size)
                 off = 0
                 try:
                     while off < len(data):
